@@ -358,6 +358,43 @@ func VerifC04_Currency() {
 	rt.Reach("currency-end")
 }
 
+// getters of the wrong type and for unknown options keep returning their
+// fallback, also after the configuration changed (getters refresh then)
+func VerifC04_FallbackCurrency() {
+	c04Reset()
+	addOption("s", OptTypeString, ReleaseLevelStable, &valueCache{stringVal: "dflt"})
+	addOption("l", OptTypeStringArray, ReleaseLevelStable, &valueCache{stringArrayVal: []string{"d"}})
+	addOption("n", OptTypeInt, ReleaseLevelStable, &valueCache{intVal: 1})
+	wrongInt := GetAsInt("s", 42)
+	wrongStr := GetAsString("n", "fallback")
+	wrongBool := Concurrent.GetAsBool("l", true)
+	wrongList := GetAsStringArray("n", []string{"fb"})
+	safeWrongInt := Concurrent.GetAsInt("l", -5)
+	unknown := GetAsInt("nope", 7)
+	check := func(tag string) {
+		rt.Assert(wrongInt() == 42, tag+"/wrong-type-int-getter-returns-fallback")
+		rt.Assert(wrongStr() == "fallback", tag+"/wrong-type-string-getter-returns-fallback")
+		rt.Assert(wrongBool(), tag+"/wrong-type-bool-getter-returns-fallback")
+		l := wrongList()
+		rt.Assert(len(l) == 1 && l[0] == "fb", tag+"/wrong-type-list-getter-returns-fallback")
+		rt.Assert(safeWrongInt() == -5, tag+"/wrong-type-concurrent-getter-returns-fallback")
+		rt.Assert(unknown() == 7, tag+"/unknown-option-getter-returns-fallback")
+	}
+	check("fallback-fresh")
+	switch rt.Choice("change", 4) {
+	case 0:
+		rt.Assert(setConfigOption("s", "new", false) == nil, "fallback/set-ok")
+	case 1:
+		rt.Assert(setDefaultConfigOption("n", 9, false) == nil, "fallback/setdefault-ok")
+	case 2:
+		_, _ = ReplaceConfig(map[string]interface{}{"n": 3})
+	case 3:
+		_, _ = ReplaceDefaultConfig(map[string]interface{}{"s": "x"})
+	}
+	check("fallback-after-change")
+	rt.Reach("fallbackcurrency-end")
+}
+
 // ---- O6: values are validated against the option's regular expression
 // (string options: the value; string lists: every entry) ----
 
